@@ -76,6 +76,7 @@ type sys struct {
 	// still pending, was rolled back, or died in a restart); its nodes were published to the global
 	// memTree by Tree.Hash although they were never persisted
 	aliased     bool
+	poisoned    bool
 	everPending []ver
 	allCommits  []ver
 }
@@ -179,7 +180,22 @@ func (h harness) seq(r *vx.Run) *vx.Seq[*sys] {
 		return &sys{cfg: h.cfg, st: mvx.Open(h.cfg, "memdb", "")}
 	}
 	q.OpName = h.opName
+	inner := func(s *sys, i int) string { return "" }
 	q.Apply = func(s *sys, i int) string {
+		if s.poisoned {
+			return ""
+		}
+		f := inner(s, i)
+		if sup := os.Getenv("VERIF_SUPPRESS"); sup != "" && f != "" && strings.Contains(f, sup) {
+			// mutation demonstrations only: a failure class already reported is counted, not raised,
+			// and the history is not extended
+			r.Count("suppressed_cases", 1)
+			s.poisoned = true
+			return ""
+		}
+		return f
+	}
+	inner = func(s *sys, i int) string {
 		if i < 2*n {
 			direct := i < n
 			j := i % n
@@ -264,6 +280,9 @@ func (h harness) seq(r *vx.Run) *vx.Seq[*sys] {
 		return ""
 	}
 	q.Check = func(s *sys) string {
+		if s.poisoned {
+			return ""
+		}
 		// the store's own list of pending updates must be the model's (keeps the harness honest about
 		// which updates are pending; a leak here is C04's subject and is reported as a harness error)
 		var want []string
@@ -277,6 +296,9 @@ func (h harness) seq(r *vx.Run) *vx.Seq[*sys] {
 		return ""
 	}
 	q.Canon = func(s *sys) string {
+		if s.poisoned {
+			return "poisoned"
+		}
 		parts := []interface{}{"c"}
 		for _, v := range s.committed {
 			parts = append(parts, v.root)
